@@ -12,6 +12,8 @@ var lookalikes = []string{
 	"-a", "+a", " a", "+++ b", "--- a", "+++ new", "--- old", "diff old new",
 	"@@ -1 +1 @@", "@@ -1,0 +1,0 @@", "@@ -0,0 +1,3 @@", "@@", `\ No newline at end of file`, `\`,
 	"", " ", "-", "+", "--", "++", "a\r", "\t", "é", "\x00", "- ", "+ ",
+	// text that means something to a formatter
+	"100%", "%d", "%%", "%[1]d", "%s %s", "a%", "%!d(MISSING)", "%v%v%v", "%-5d|", `%q`,
 }
 
 type gen struct {
